@@ -544,6 +544,47 @@ def enum_job(job):
                     bad.append(f"{cls.__name__}.from_bits({v}) -> {cls.from_bits(v)}")
     r = dict(base, id="enum-roundtrip", kind="enum const/from_bits", assertion="E.from_bits(E.const(m)) is m and the constant has the member's value in the enum's shape")
     out.append(dict(r, status=VIOLATION, detail="; ".join(bad[:4]), signature={"kind": "enum"}, replay={"enum": True}) if bad else dict(r, status=PROVED))
+    # testbench round trip on the genuine Simulator: ctx.set(x, value) then ctx.get(x) returns that value, for every member of
+    # unsigned / signed enumerations and for layouts with signed and signed-enum fields (SimulatorContext.get -> from_bits)
+    from amaranth.sim import Simulator
+    bad = []
+    Es = make_enum("TbS", {"L": -2, "M": -1, "Z": 0, "P": 1}, Shape(2, True))
+    Eu = make_enum("TbU", {"A": 0, "B": 1, "C": 3}, 2)
+    Lay = data.StructLayout({"e": Es, "s": Shape(3, True), "u": 2, "f": Eu})
+    with symsim.real_states(), warnings.catch_warnings():
+        warnings.simplefilter("ignore")
+        se, su, sl = Signal(Es, name="se"), Signal(Eu, name="su"), Signal(Lay, name="sl")
+        ce = Signal(Es, name="ce")
+        m_ = Module()
+        m_.d.comb += ce.eq(se)
+        sim_ = Simulator(m_)
+
+        async def tb(ctx):
+            for mbr in Es:
+                ctx.set(se, mbr)
+                for sg in (se, ce):
+                    g = ctx.get(sg)
+                    if g is not mbr:
+                        bad.append(f"signed enum: set {mbr!r}, get({sg.as_value().name}) -> {g!r}")
+            for mbr in Eu:
+                ctx.set(su, mbr)
+                if ctx.get(su) is not mbr:
+                    bad.append(f"unsigned enum: set {mbr!r}, get -> {ctx.get(su)!r}")
+            for mbr in Es:
+                for sv in (-4, -1, 3):
+                    ctx.set(sl, {"e": mbr, "s": sv, "u": 2, "f": Eu.C})
+                    c = ctx.get(sl)
+                    got = (c.e, c.s, c.u, c.f, ctx.get(sl.e), ctx.get(sl.s), ctx.get(sl.f))
+                    want = (mbr, sv, 2, Eu.C, mbr, sv, Eu.C)
+                    if got != want:
+                        bad.append(f"layout: set e={mbr!r} s={sv}: get -> {got!r}")
+        sim_.add_testbench(tb)
+        try:
+            sim_.run()
+        except Exception as ex:
+            bad.append(f"raised {type(ex).__name__}: {ex}")
+    r = dict(base, id="testbench-roundtrip", kind="ctx.set / ctx.get round trip", assertion="ctx.get(x) after ctx.set(x, v) is v for enumeration members and layout fields, signed ones included")
+    out.append(dict(r, status=VIOLATION, detail="; ".join(bad[:3]), signature={"kind": "tb-roundtrip"}, replay={"enum": True}) if bad else dict(r, status=PROVED))
     # FlagView operators vs Python's enum.Flag, all operand values symbolic
     for w, gaps, boundary in ((2, False, None), (3, False, None), (3, True, None), (3, True, py_enum.EJECT), (3, True, py_enum.KEEP), (3, True, py_enum.CONFORM),
                               (4, True, py_enum.EJECT), (3, False, py_enum.KEEP)):
